@@ -302,6 +302,10 @@ def rule_B(ck, units):
             IN, OUT = f.cfg.forward(frozenset(), transfer, join=lambda a, b_: a & b_)
             for b, st in IN.items():
                 transfer(b, st, record=True)
+            # the exchange is finished on every path to the end of the function (the sends of a rank that receives nothing must be waited for too)
+            ex = IN.get(f.cfg.exit)
+            if ex is not None and 'started' in ex and 'fin' not in ex:
+                bad.append((f.body, 'on some path the function returns after start_exchange() without finish_exchange(): the send requests are still pending and the send buffer may be overwritten by the next product'))
             nuse = sum(1 for evs in events.values() for e in evs if e[2] == 'use')
             nst = sum(1 for evs in events.values() for e in evs if e[2] == 'start')
             if nst != 1:
@@ -539,6 +543,62 @@ def rule_E(ck, units):
             ck.ob('E.datatype-covers-value', key, f.where(c), ok, '' if ok else 'the MPI datatype of %s is %d x %s = %d bytes, the value has %d bytes: only part of each value is sent / received' % (T, N, S, N * sS, sT))
 
 
+def mpi_op(e):
+    t = show(e).lower()
+    for k in ('sum', 'max', 'min', 'prod'):
+        if 'op_' + k in t or 'mpi_' + k in t:
+            return k
+    return None
+
+
+def rule_F(ck, units):
+    """the global reduction uses the operator with which the value is accumulated locally (over rows / threads): a quantity summed
+    locally is MPI_SUM-reduced, a running maximum MPI_MAX-reduced - otherwise the distributed value is not the serial one"""
+    ck.rule('F.reduce-op-matches-accumulation', 'every comm.reduce(OP, v) / MPI_Allreduce on a local accumulator v uses the operator of its local accumulation: `v += ..` / `++v` -> MPI_SUM, '
+                                                '`v = std::max(v, ..)` -> MPI_MAX, `v = std::min(v, ..)` -> MPI_MIN, `v *= ..` -> MPI_PROD', 4)
+    done = set()
+    for u in units.values():
+        for f in u.funcs:
+            if f.body is None or not f.rel().startswith('amgcl/mpi/') or (f.file, f.line) in done:
+                continue
+            calls = [c for c in f.calls() if c.get('m') == 'reduce' and len(c.get('a', [])) == 2]
+            if not calls:
+                continue
+            done.add((f.file, f.line))
+            for k, c in enumerate(calls):
+                v = unwrap(c['a'][1])
+                if v is None or v['k'] != 'ref' or f.decl(v['d']).get('k') not in ('local',):
+                    continue
+                kinds = set()
+                for n in f.nodes.values():
+                    if n['k'] == 'bin' and unwrap(n['x']) is not None and unwrap(n['x'])['k'] == 'ref' and unwrap(n['x'])['d'] == v['d']:
+                        if n is c or any(x is c for x in walk(n)):
+                            continue      # v = comm.reduce(.., v)
+                        if n['op'] in ('+=', '-='):
+                            kinds.add('sum')
+                        elif n['op'] == '*=':
+                            kinds.add('prod')
+                        elif n['op'] == '=':
+                            y = unwrap(n['y'])
+                            if y is not None and y['k'] == 'call' and (y.get('f') or '') in ('std::max', 'std::min') and any(x['k'] == 'ref' and x['d'] == v['d'] for x in walk(y)):
+                                kinds.add('max' if y['f'] == 'std::max' else 'min')
+                            elif y is not None and y['k'] == 'lit':
+                                pass
+                            else:
+                                kinds.add('assign')
+                    elif n['k'] == 'un' and n['op'] in ('++', '--') and unwrap(n['e'])['k'] == 'ref' and unwrap(n['e'])['d'] == v['d']:
+                        kinds.add('sum')
+                kinds.discard('assign') if len(kinds) > 1 else None
+                if len(kinds) != 1 or 'assign' in kinds:
+                    continue
+                want = next(iter(kinds))
+                got = mpi_op(c['a'][0])
+                key = '%s|%s|%s' % (f.rel(), f.q, v['n'])
+                ck.ob('F.reduce-op-matches-accumulation', key, f.where(c), got == want,
+                      '' if got == want else 'in %s: `%s` is accumulated locally as a %s but reduced over the ranks with `%s` at %s: the global value is not the %s over all rows' % (
+                          f.full[:80], v['n'], {'sum': 'sum (+=)', 'max': 'running maximum', 'min': 'running minimum', 'prod': 'product'}[want], show(c['a'][0])[:30], f.where(c), want))
+
+
 def rule_D(ck, units):
     ck.rule('D.gather-counts', 'in MPI_Gather / MPI_Allgather with equal send and receive types the per-rank receive count equals the send count', 3)
     done = set()
@@ -570,6 +630,7 @@ def main(tier):
     rule_C(ck, units)
     rule_D(ck, units)
     rule_E(ck, units)
+    rule_F(ck, units)
     ck.assumptions += ['MPI_Allreduce / MPI_Allgather deliver the same result on all ranks', 'configuration parameters (prm.*, scalar arguments such as power_iters) are equal on all ranks',
                        'equality with the serial kernels for all partitions and the correctness of transpose / product are not decided']
     return ck.finish()
